@@ -39,15 +39,16 @@ type Spec struct {
 	Mutants    []string      `json:"mutants"` // file=replacement overlays
 	WorkDir    string        `json:"work_dir"`
 	NoNative   bool          `json:"no_native"`
+	ReplayDir  string        `json:"replay_dir"`
 }
 
 type Output struct {
-	Results   []*HarnessResult `json:"results"`
-	LoadS     float64          `json:"load_s"`
-	Solver    SolverStats      `json:"solver"`
-	Sources   map[string]string `json:"source_sha256"`
-	NumFuncs  int              `json:"ssa_functions"`
-	Errors    []string         `json:"errors"`
+	Results  []*HarnessResult  `json:"results"`
+	LoadS    float64           `json:"load_s"`
+	Solver   SolverStats       `json:"solver"`
+	Sources  map[string]string `json:"source_sha256"`
+	NumFuncs int               `json:"ssa_functions"`
+	Errors   []string          `json:"errors"`
 }
 
 const modPath = "github.com/parquet-go/parquet-go"
@@ -56,7 +57,11 @@ func main() {
 	specPath := flag.String("spec", "", "spec json")
 	outPath := flag.String("out", "", "output json")
 	trace := flag.Bool("trace", false, "trace")
+	replayPath := flag.String("replay", "", "replay a counterexample file natively")
 	flag.Parse()
+	if *replayPath != "" {
+		os.Exit(replayMain(*replayPath))
+	}
 	var spec Spec
 	b, err := os.ReadFile(*specPath)
 	if err != nil {
@@ -118,13 +123,8 @@ type loaded struct {
 
 var replaceRe = regexp.MustCompile(`(?m)^//verif:replace\s+(\S+)\s+=>\s+(\S+)\s*$`)
 
-func loadProgram(spec *Spec) (*loaded, error) {
+func collectOverlay(spec *Spec, pkgSet map[string]bool) (*loaded, []string, error) {
 	ld := &loaded{pkgs: map[string]*ssa.Package{}, replaces: map[string]map[string]string{}, fileOf: map[string]string{}, hashes: map[string]string{}, overlay: map[string][]byte{}, hfiles: map[string][]string{}}
-	// collect harness files
-	pkgSet := map[string]bool{}
-	for _, h := range spec.Harnesses {
-		pkgSet[h.Pkg] = true
-	}
 	var patterns []string
 	for p := range pkgSet {
 		rel := strings.TrimPrefix(strings.TrimPrefix(p, modPath), "/")
@@ -137,7 +137,7 @@ func loadProgram(spec *Spec) (*loaded, error) {
 		for _, f := range files {
 			src, err := os.ReadFile(f)
 			if err != nil {
-				return nil, err
+				return nil, nil, err
 			}
 			if m := regexp.MustCompile(`(?m)^package\s+(\w+)`).FindSubmatch(src); m != nil {
 				pkgName = string(m[1])
@@ -152,7 +152,7 @@ func loadProgram(spec *Spec) (*loaded, error) {
 			ld.replaces[dst] = rm
 		}
 		if pkgName == "" {
-			return nil, fmt.Errorf("no harness files for package %s in %s", p, hdir)
+			return nil, nil, fmt.Errorf("no harness files for package %s in %s", p, hdir)
 		}
 		dst := filepath.Join(spec.Repo, rel, "zz_verif_intrinsics.go")
 		ld.overlay[dst] = []byte(strings.Replace(intrinsicsDecl, "package PKG", "package "+pkgName, 1))
@@ -162,11 +162,23 @@ func loadProgram(spec *Spec) (*loaded, error) {
 		kv := strings.SplitN(m, "=", 2)
 		src, err := os.ReadFile(kv[1])
 		if err != nil {
-			return nil, err
+			return nil, nil, err
 		}
 		ld.overlay[filepath.Join(spec.Repo, kv[0])] = src
 	}
 	sort.Strings(patterns)
+	return ld, patterns, nil
+}
+
+func loadProgram(spec *Spec) (*loaded, error) {
+	pkgSet := map[string]bool{}
+	for _, h := range spec.Harnesses {
+		pkgSet[h.Pkg] = true
+	}
+	ld, patterns, err := collectOverlay(spec, pkgSet)
+	if err != nil {
+		return nil, err
+	}
 	cfg := &packages.Config{
 		Mode:       packages.LoadAllSyntax,
 		Dir:        spec.Repo,
@@ -284,6 +296,23 @@ func runHarness(ld *loaded, spec *Spec, hs HarnessSpec, trace bool) *HarnessResu
 	} else {
 		r.Witness = fmt.Sprintf("%d completed feasible paths; cover points reached: %v", r.PathsOK, r.Covers)
 	}
+	// replay every counterexample against the natively compiled real code
+	if !spec.NoNative && len(replace) == 0 {
+		for i := range r.Violations {
+			v := &r.Violations[i]
+			if i >= 5 {
+				v.ReplayNote = "not replayed (only the first 5 counterexamples are replayed)"
+				continue
+			}
+			path := filepath.Join(replayDir(spec), fmt.Sprintf("%s-%d.json", hs.Func, i))
+			v.ReplayPath = path
+			v.Reproduced, v.ReplayNote = replayNative(ld, spec, hs, v, path)
+		}
+	} else {
+		for i := range r.Violations {
+			r.Violations[i].ReplayNote = "harness uses environment replacements: replay is through the public-API scenario"
+		}
+	}
 	if hs.Validate > 0 && !spec.NoNative && len(replace) == 0 {
 		r.Validation = validate(ld, spec, hs, base, fn, cfg, replace)
 		if r.Validation.Mismatches > 0 || r.Validation.Error != "" {
@@ -328,3 +357,45 @@ func vObserveBytes(tag string, v []byte) { panic("verif intrinsic") }
 func vTry(f func()) bool               { panic("verif intrinsic") }
 func vOverlap(a, b []byte) bool        { panic("verif intrinsic") }
 `
+
+func replayDir(spec *Spec) string {
+	if spec.ReplayDir != "" {
+		return spec.ReplayDir
+	}
+	return "/verif/replays"
+}
+
+// replayMain re-runs a stored counterexample against the current /repo tree.
+func replayMain(path string) int {
+	b, err := os.ReadFile(path)
+	if err != nil {
+		fatal(err)
+	}
+	var cx struct {
+		Pkg, Harness, Kind, Msg, Where string
+		Nondets                        []NondetRec
+		Tier                           int
+	}
+	if err := json.Unmarshal(b, &cx); err != nil {
+		fatal(err)
+	}
+	spec := &Spec{Repo: "/repo", HarnessDir: "/verif/harness", Tier: cx.Tier, WorkDir: "/verif/work/replay"}
+	if d := os.Getenv("VERIF_HARNESS_DIR"); d != "" {
+		spec.HarnessDir = d
+	}
+	ld, _, err := collectOverlay(spec, map[string]bool{cx.Pkg: true})
+	if err != nil {
+		fatal(err)
+	}
+	v := &Violation{Kind: cx.Kind, Msg: cx.Msg, Where: cx.Where, Nondets: cx.Nondets}
+	tmp := path + ".rerun"
+	ok, note := replayNative(ld, spec, HarnessSpec{Pkg: cx.Pkg, Func: cx.Harness}, v, tmp)
+	os.Remove(tmp)
+	fmt.Println(note)
+	if ok {
+		fmt.Printf("REPRODUCED %s %s: %s\n", cx.Harness, cx.Kind, cx.Msg)
+		return 1
+	}
+	fmt.Println("not reproduced")
+	return 0
+}
